@@ -158,6 +158,9 @@ def cell_encodings():
             Element("text:span", children=[Element("text:line-break")], tail=b)])])], [a, "\n", b]),
         "text:s last": ([Element("text:p", text=a, children=[Element("text:s")])], [a, " "]),
         "two text:s in a row": ([Element("text:p", text=a, children=[Element("text:s"), Element("text:s", {"text:c": "2"}, tail=b)])], [a, "   ", b]),
+        # a comment is no content of the cell: its paragraphs sit inside office:annotation, not directly in the cell
+        "comment on a filled cell": ([Element("office:annotation", children=[Element("text:p", text=b)]), Element("text:p", text=a)], [a]),
+        "comment on an empty cell": ([Element("office:annotation", children=[Element("text:p", text=b)])], []),
     }
 
 
